@@ -208,7 +208,9 @@ def real_signal(ctx):
             args = [rng.choice(calls)] if calls and rng.random() < 0.5 and not backlog else []
             if chain:
                 args = calls[-1:]
-            calls.append(p.call(dress(mk(i)), *args))
+            # scope values of different types at the same position (a year, a name, a tuple): displays must cope when they sum up at exit
+            with p.scope((2020, "summary", (1, 2), None, 2.5)[i % 5]):
+                calls.append(p.call(dress(mk(i)), *args))
         obs = Obs()
         # every fourth trial the bundled console display is attached instead of the recording observer (its update thread must be gone too)
         use_console = trial % 4 == 3
